@@ -30,9 +30,10 @@ pub fn run(rng: &mut Rng, n: usize, out: &mut Out, which: &str) {
             "c08" => {
                 // candidates: play-outs and small positions with heavy pieces; keep those with a mate in one (part a)
                 // or with both kinds of moves (part b)
-                let b = match rng.below(5) {
+                let b = match rng.below(7) {
                     0 | 1 => g.playout(rng, 120),
                     2 => match promo_mate_position(&g, rng) { Some(b) => { out.count("promotion_family_candidates"); b } None => continue },
+                    3 | 4 => match minor_corner(&g, rng) { Some(b) => { out.count("minor_piece_corner_candidates"); b } None => continue },
                     _ => match heavy_small(&g, rng) { Some(b) => b, None => continue },
                 };
                 let mut b = b;
@@ -171,10 +172,13 @@ pub fn run(rng: &mut Rng, n: usize, out: &mut Out, which: &str) {
                 case += 1;
                 out.op(&format!("case {}", case), "ok");
                 fresh_keys(&mut st, out, "eng.new");
-                let ncmds = 1 + rng.below(3);
+                let ncmds = 1 + rng.below(4);
                 // the previous command of this engine (start, was it startpos, moves): GUIs send the whole game again with one
                 // more move, take moves back, or start another game from the same position — related commands in a row
                 let mut prev: Option<(Board, bool, Vec<Move>)> = None;
+                // ... and the one before that: a GUI that analyses another position in between comes BACK to the game
+                // (A, B, A + more moves): anything remembered about A must not survive B
+                let mut prev2: Option<(Board, bool, Vec<Move>)> = None;
                 for ci in 0..ncmds {
                     // start: startpos, corpus FEN, or a generated valid position; counters from the interesting set
                     // a new game between two commands now and then; the command after it usually repeats or extends the previous
@@ -193,7 +197,9 @@ pub fn run(rng: &mut Rng, n: usize, out: &mut Out, which: &str) {
                     let mut forced_prefix: Vec<Move> = Vec::new();
                     let mut replay_tail: Vec<Move> = Vec::new();
                     if related > 0 {
-                        let (ps, pu, pm) = prev.clone().unwrap();
+                        let back = prev2.is_some() && rng.chance(2, 5);
+                        if back { out.count("related_to_the_command_before_last"); }
+                        let (ps, pu, pm) = if back { prev2.clone().unwrap() } else { prev.clone().unwrap() };
                         start = ps;
                         use_startpos = pu;
                         match related {
@@ -297,6 +303,7 @@ pub fn run(rng: &mut Rng, n: usize, out: &mut Out, which: &str) {
                     if !played.is_empty() { line += " moves"; for m in &played { line += " "; line += &uci_text(m); } }
                     // irregular spacing is part of the input domain
                     if rng.chance(1, 6) { line = line.replace(" ", "  "); }
+                    prev2 = prev.take();
                     prev = Some((start, use_startpos, played.clone()));
                     let op = format!("eng.pos {} {} | {}", board_text(&start), played.iter().map(mv_text).collect::<Vec<_>>().join(" "), line);
                     let a = out.run(&mut st, &op);
@@ -499,6 +506,44 @@ fn promo_mate_position(g: &Gen, rng: &mut Rng) -> Option<Board> {
     let (mut wbb, mut bbb) = (0u64, 0u64);
     for sq in 0..64 { if let Some((c, p)) = occ[sq] { pcs[p.index()] |= 1 << sq; if c == Color::White { wbb |= 1 << sq } else { bbb |= 1 << sq } } }
     let b = board_from_raw(pcs, wbb, bbb, me, 0, None, 0, 1)?;
+    if crate::refchess::valid(&b) { Some(b) } else { None }
+}
+
+/// kings and MINOR pieces only (bishops, knights, at most one pawn), the defending king in a corner hemmed in by its own
+/// men: mates by bishop / knight with almost no material on the board (where "insufficient material" shortcuts would bite)
+fn minor_corner(g: &Gen, rng: &mut Rng) -> Option<Board> {
+    use crate::pieces::{Color, Piece};
+    let mut occ = [None::<(Color, Piece)>; 64];
+    let (att, def) = if rng.chance(1, 2) { (Color::White, Color::Black) } else { (Color::Black, Color::White) };
+    let corner = *rng.pick(&[0usize, 7, 56, 63]);
+    let (cr, cf) = ((corner / 8) as i32, (corner % 8) as i32);
+    let inward = |d: i32, c: i32| if c == 0 { d } else { -d };
+    occ[corner] = Some((def, Piece::King));
+    // the attacker's king a knight's move or two squares away
+    let (ar, af) = *rng.pick(&[(1, 2), (2, 1), (2, 0), (0, 2), (2, 2)]);
+    let ak = ((cr + inward(ar, cr)) * 8 + cf + inward(af, cf)) as usize;
+    occ[ak] = Some((att, Piece::King));
+    // the defender's own men next to its king
+    for (dr, df) in [(0, 1), (1, 0), (1, 1)] {
+        if rng.chance(2, 5) {
+            let s = ((cr + inward(dr, cr)) * 8 + cf + inward(df, cf)) as usize;
+            let pr = s / 8;
+            let p = *rng.pick(&[Piece::Bishop, Piece::Bishop, Piece::Knight, Piece::Pawn]);
+            if p == Piece::Pawn && (pr == 0 || pr == 7) { continue; }
+            if occ[s].is_none() { occ[s] = Some((def, p)); }
+        }
+    }
+    for _ in 0..(1 + rng.below(3)) {
+        let s = rng.below(64) as usize;
+        if occ[s].is_none() { occ[s] = Some((att, *rng.pick(&[Piece::Bishop, Piece::Bishop, Piece::Knight]))); }
+    }
+    if rng.chance(1, 3) { let s = rng.below(64) as usize; if occ[s].is_none() { occ[s] = Some((def, *rng.pick(&[Piece::Bishop, Piece::Knight]))); } }
+    let mut pcs = [0u64; 6];
+    let (mut white, mut black) = (0u64, 0u64);
+    for s in 0..64 { if let Some((c, p)) = occ[s] { pcs[p.index()] |= 1 << s; if c == Color::White { white |= 1 << s } else { black |= 1 << s } } }
+    // attacker to move (mate in one) or defender to move (a capture / move that allows mate next to safe ones)
+    let side = if rng.chance(2, 3) { att } else { def };
+    let b = board_from_raw(pcs, white, black, side, 0, None, 0, 1)?;
     if crate::refchess::valid(&b) { Some(b) } else { None }
 }
 
